@@ -242,14 +242,17 @@ pub fn main(args: &util::Args) {
             max_depth: 1 + i % 3,
             effects: true,
             wildcard_arrays: i % 10 == 8,
+            src_forms: i % 4 != 1,
+            lit_field_effects: i % 20 == 7,
         };
         let (src, feats) = crate::progen::gen_program(&mut rng, cfg);
         let id = format!(
-            "gen:{}:{}{}{}",
+            "gen:{}:{}{}{}{}",
             args.seed,
             i,
             if cfg.closure_flows { ":cf" } else { "" },
-            if cfg.wildcard_arrays { ":wa" } else { "" }
+            if cfg.wildcard_arrays { ":wa" } else { "" },
+            if cfg.lit_field_effects { ":lfe" } else { "" }
         );
         match util::compile_text(&dir, &src) {
             Outcome::Ok(c) => {
